@@ -14,7 +14,7 @@
 (***************************************************************************)
 EXTENDS OpsModifiers
 
-CONSTANTS Regs, ZoneRefs, Walls, Deltas, CalShifts, ModUnits, WeekStarts
+CONSTANTS Regs, ZoneRefs, Walls, Deltas, CalShifts, ModUnits, WeekStarts, Overrides, Weekdays
 VARIABLES regs, cfg, last
 vars == <<regs, cfg, last>>
 Absent == [k |-> "absent"]
@@ -55,6 +55,32 @@ EndOfA(src, dst, u) ==
   /\ regs' = [regs EXCEPT ![dst] = EndOfRef(regs[src], u, cfg)]
   /\ last' = Obs("end_of", src, dst, [unit |-> u, cfg |-> cfg, how |-> "session"])
   /\ UNCHANGED cfg
+\* set() / on() / at(): fields overridden, zone and fold kept, result normalised (C02)
+SetA(src, dst, o) ==
+  /\ Present(src) /\ ValidWall(Merge(regs[src].w, o))
+  /\ regs' = [regs EXCEPT ![dst] = SetFields(regs[src], o)]
+  /\ last' = Obs("set", src, dst, [o |-> o, entry |-> "set"])
+  /\ UNCHANGED cfg
+\* next(weekday) / previous(weekday): midnight of the nearest such day strictly after / before (C16)
+NavRef(x, n) == Construct(x.z, DateW(n, 0, 0, 0, 0), 1)
+NextA(src, dst, wd) ==
+  /\ Present(src)
+  /\ regs' = [regs EXCEPT ![dst] = NavRef(regs[src], NextOrd(Ord(regs[src].w[1], regs[src].w[2], regs[src].w[3]), wd))]
+  /\ last' = Obs("next", src, dst, [wd |-> wd, keep |-> FALSE])
+  /\ UNCHANGED cfg
+PrevA(src, dst, wd) ==
+  /\ Present(src)
+  /\ regs' = [regs EXCEPT ![dst] = NavRef(regs[src], PrevOrd(Ord(regs[src].w[1], regs[src].w[2], regs[src].w[3]), wd))]
+  /\ last' = Obs("previous", src, dst, [wd |-> wd, keep |-> FALSE])
+  /\ UNCHANGED cfg
+\* first_of / last_of("month", weekday)
+OfA(src, dst, which, wd) ==
+  /\ Present(src)
+  /\ LET x == regs[src]
+         n == IF which = "first_of" THEN FirstOfOrd("month", x.w[1], x.w[2], wd) ELSE LastOfOrd("month", x.w[1], x.w[2], wd)
+     IN regs' = [regs EXCEPT ![dst] = NavRef(x, n)]
+  /\ last' = Obs(which, src, dst, [unit |-> "month", wd |-> wd])
+  /\ UNCHANGED cfg
 \* pickle / copy / deepcopy: the abstraction does not change
 CopyA(src, dst, how) ==
   /\ Present(src)
@@ -72,6 +98,9 @@ Next == \/ \E dst \in Regs, zr \in ZoneRefs, w \in Walls, f \in {0, 1} : CreateA
         \/ \E src \in Regs, dst \in Regs, d \in Deltas : AddFixedA(src, dst, d)
         \/ \E src \in Regs, dst \in Regs, c \in CalShifts : AddCalA(src, dst, c)
         \/ \E src \in Regs, dst \in Regs, u \in ModUnits : StartOfA(src, dst, u) \/ EndOfA(src, dst, u)
+        \/ \E src \in Regs, dst \in Regs, o \in Overrides : SetA(src, dst, o)
+        \/ \E src \in Regs, dst \in Regs, wd \in Weekdays : NextA(src, dst, wd) \/ PrevA(src, dst, wd)
+        \/ \E src \in Regs, dst \in Regs, wd \in Weekdays, which \in {"first_of", "last_of"} : OfA(src, dst, which, wd)
         \/ \E src \in Regs, dst \in Regs, how \in {"pickle2", "copy", "deepcopy"} : CopyA(src, dst, how)
         \/ \E ws \in WeekStarts : SetWeekA(ws)
 Spec == Init /\ [][Next]_vars
@@ -103,6 +132,20 @@ HistoryIndependent == \A r1 \in Regs, r2 \in Regs :
        \A u \in ModUnits \ {"second", "minute", "hour"} :
           LET s1 == StartOfRef(regs[r1], u, cfg)  s2 == StartOfRef(regs[r2], u, cfg)
           IN s1.w = s2.w /\ InstOf(s1) = InstOf(s2)          \* equal up to the fold attribute of an unambiguous reading
+\* weekday navigation lands on the requested weekday, at midnight or - where midnight does not exist - at the
+\* first instant of that day, strictly after / before the source day and at most a week away (C16)
+NavOk == \A r \in Regs, wd \in Weekdays : Present(r) =>
+   LET x == regs[r]  n0 == Ord(x.w[1], x.w[2], x.w[3])
+       nx == NavRef(x, NextOrd(n0, wd))  pv == NavRef(x, PrevOrd(n0, wd))
+       DayOf(v) == Ord(v.w[1], v.w[2], v.w[3])
+   IN /\ WellFormed(nx) /\ WellFormed(pv)
+      /\ Dow(DayOf(nx)) = wd /\ Dow(DayOf(pv)) = wd
+      /\ DayOf(nx) - n0 \in 1..7 /\ n0 - DayOf(pv) \in 1..7
+      /\ I3Lt(InstOf(x), InstOf(nx)) /\ I3Lt(InstOf(pv), InstOf(x))
+\* set() keeps zone and every field it was not given, unless the reading had to be normalised out of a gap
+SetKeeps == [][\A s \in Regs, d \in Regs, o \in Overrides :
+                 SetA(s, d, o) => /\ regs'[d].z = regs[s].z
+                                  /\ (Classify(Z(regs[s].z), WDS(Merge(regs[s].w, o))) # "skipped" => regs'[d].w = Merge(regs[s].w, o))]_vars
 \* copying is a stuttering step on the abstraction (C14)
 CopyStutters == [][\A s \in Regs, d \in Regs, h \in {"pickle2", "copy", "deepcopy"} : CopyA(s, d, h) => regs'[d] = regs[s]]_vars
 =============================================================================
